@@ -24,7 +24,8 @@ Record charac := mkChar {
   format : fmt;
   p_read : bool; p_write : bool; p_event : bool;
   cvalue : option gval;           (* Characteristic.Value; None = nil *)
-  minv : bound; maxv : bound
+  minv : bound; maxv : bound;
+  upd_same : bool                 (* updateOnSameValue: an update with the stored value still counts as a change *)
 }.
 
 (** ---- IEEE-754 double helpers on bit patterns ---- *)
@@ -43,14 +44,23 @@ Definition f_eqb (a b : N) : bool := negb (f_is_nan a) && negb (f_is_nan b) && (
 Definition f_one : N := 4607182418800017408%N.      (* 1.0 *)
 Definition f_zero : N := 0%N.
 
-(** float64(int) for |z| < 2^53 (exact); larger ints are outside what the harness passes *)
+(** float64(int): exact up to 2^53, round-to-nearest-even above (IEEE-754 conversion) *)
 Definition f_of_Z (z : Z) : N :=
   match z with
   | Z0 => 0%N
   | _ => let a := Z.to_N (Z.abs z) in
          let e := N.log2 a in
-         let m := (a * 2 ^ (52 - e))%N in
-         ((if (z <? 0)%Z then two63 else 0) + (e + 1023) * two52 + (m - two52))%N
+         let sign := (if (z <? 0)%Z then two63 else 0)%N in
+         if (e <=? 52)%N then
+           (sign + (e + 1023) * two52 + (a * 2 ^ (52 - e) - two52))%N
+         else
+           let sh := (e - 52)%N in
+           let q := (a / 2 ^ sh)%N in
+           let r := (a mod 2 ^ sh)%N in
+           let half := (2 ^ (sh - 1))%N in
+           let q' := (if (half <? r)%N || ((r =? half)%N && N.odd q) then q + 1 else q)%N in
+           if (q' =? 2 * two52)%N then (sign + (e + 1 + 1023) * two52)%N
+           else (sign + (e + 1023) * two52 + (q' - two52))%N
   end.
 
 Definition two64 : Z := 18446744073709551616.
@@ -147,12 +157,12 @@ Definition update (strict : bool) (c : charac) (v : gval) (o : origin) (check_pe
     let v2 := clamp c v1 in
     match iface_eq (cvalue c) v2 with
     | None => Panic
-    | Some true => Ok (c, [])
-    | Some false =>
-      if (check_perms && negb (p_write c))%bool then Ok (c, [])
+    | Some same =>
+      if (same && negb (upd_same c))%bool then Ok (c, [])
+      else if (check_perms && negb (p_write c))%bool then Ok (c, [])
       else
         let c' := mkChar (format c) (p_read c) (p_write c) (p_event c)
-                         (if p_read c then Some v2 else cvalue c) (minv c) (maxv c) in
+                         (if p_read c then Some v2 else cvalue c) (minv c) (maxv c) (upd_same c) in
         Ok (c', [mkCb o v2 (cvalue c)])
     end
   end.
